@@ -1,4 +1,319 @@
 import PV.Model.Flatten
 import PV.Spec.Flatten
 namespace PV.Lemmas.Flatten
+open PV.Flatten
+
+/-- Unicode scalar value (same text as `PV.Props.C19.Scalar`). -/
+def Scalar (c : Nat) : Prop := c < 0xD800 ∨ (0xE000 ≤ c ∧ c ≤ 0x10FFFF)
+/-- BMP, non-surrogate. -/
+def Ok (u : Nat) : Prop := u < 0xD800 ∨ (0xE000 ≤ u ∧ u < 0x10000)
+
+theorem enc_eq : PV.Spec.Flatten.encode16 = PV.Flatten.encode16 := rfl
+
+/-! ### main loop / ping-pong buffers -/
+
+theorem stepLine_fst (fl : Flags) (lower nfkc : List Nat → List Nat) (rules : List Start)
+    (isSpace : Nat → Bool) (b : Buffers) (line : List Nat) :
+    (stepLine fl lower nfkc rules isSpace b line).1 =
+      PV.Spec.Flatten.transform fl.lower fl.flatten fl.normalize lower (apply rules isSpace) nfkc line := by
+  obtain ⟨l, f, n⟩ := fl
+  obtain ⟨s0, s1, cur⟩ := b
+  cases l <;> cases f <;> cases n <;> cases cur <;>
+    simp [stepLine, Buffers.get, Buffers.set, PV.Spec.Flatten.transform]
+
+theorem mainLoop_eq (fl : Flags) (lower nfkc : List Nat → List Nat) (rules : List Start)
+    (isSpace : Nat → Bool) (lines : List (List Nat)) : ∀ b : Buffers,
+    mainLoop fl lower nfkc rules isSpace b lines =
+      lines.map (PV.Spec.Flatten.transform fl.lower fl.flatten fl.normalize lower (apply rules isSpace) nfkc) := by
+  induction lines with
+  | nil => intro b; rfl
+  | cons l ls ih =>
+    intro b
+    show (stepLine fl lower nfkc rules isSpace b l).1 ::
+        mainLoop fl lower nfkc rules isSpace (stepLine fl lower nfkc rules isSpace b l).2 ls = _
+    rw [ih, stepLine_fst]; rfl
+
+theorem transform_none (f g h : List Nat → List Nat) (line : List Nat) :
+    PV.Spec.Flatten.transform false false false f g h line = line := rfl
+
+/-! ### UTF-16 facts -/
+
+theorem encode16_ok {c : Nat} (h : Ok c) : encode16 c = [c] := by
+  unfold encode16; unfold Ok at h; split
+  · omega
+  · rfl
+
+theorem flatMap_ok : ∀ (l : List Nat), (∀ u ∈ l, Ok u) → l.flatMap encode16 = l
+  | [], _ => rfl
+  | a :: l, h => by
+    rw [List.flatMap_cons, encode16_ok (h a (by simp)), flatMap_ok l (fun u hu => h u (by simp [hu]))]
+    rfl
+
+theorem encode16_length_pos (c : Nat) : 0 < (encode16 c).length := by
+  unfold encode16; split <;> simp
+
+theorem encode16_length (c : Nat) : (encode16 c).length = u16Length c := by
+  unfold encode16 u16Length; split <;> simp
+
+theorem getD_append_len (P Q : List Nat) (k : Nat) :
+    (P ++ Q).getD (P.length + k) 0 = Q.getD k 0 := by
+  simp [List.getD_eq_getElem?_getD, List.getElem?_append_right]
+
+theorem char32At_pair (P R : List Nat) (a b : Nat) (ha : isLead a = true) (hb : isTrail b = true) :
+    char32At (P ++ (a :: b :: R)) P.length = combine a b := by
+  unfold char32At
+  have h0 := getD_append_len P (a :: b :: R) 0
+  have h1 := getD_append_len P (a :: b :: R) 1
+  simp only [Nat.add_zero] at h0
+  simp only [h0, h1]
+  have e0 : (a :: b :: R).getD 0 0 = a := by simp
+  have e1 : (a :: b :: R).getD 1 0 = b := by simp
+  have hlen : P.length + 1 < (P ++ (a :: b :: R)).length := by simp
+  rw [e0, e1, ha, hb]
+  simp only [hlen, decide_true, Bool.and_self, if_true]
+
+theorem char32At_single (P R : List Nat) (a : Nat) (ha : isLead a = false) (hb : isTrail a = false) :
+    char32At (P ++ (a :: R)) P.length = a := by
+  unfold char32At
+  have h0 := getD_append_len P (a :: R) 0
+  simp only [Nat.add_zero] at h0
+  simp only [h0]
+  have e0 : (a :: R).getD 0 0 = a := by simp
+  rw [e0, ha, hb]
+  simp
+
+theorem char32At_boundary (P R : List Nat) (c : Nat) (hc : Scalar c) :
+    char32At (P ++ (encode16 c ++ R)) P.length = c := by
+  unfold Scalar at hc
+  unfold encode16
+  by_cases h : c ≥ 0x10000
+  · rw [if_pos h]
+    have hl : isLead (0xD800 + (c - 0x10000) / 0x400) = true := by
+      simp [isLead]; omega
+    have ht : isTrail (0xDC00 + (c - 0x10000) % 0x400) = true := by
+      simp [isTrail]; omega
+    show char32At (P ++ (_ :: _ :: R)) P.length = c
+    rw [char32At_pair P R _ _ hl ht]
+    unfold combine; omega
+  · rw [if_neg h]
+    have hl : isLead c = false := by simp [isLead]; omega
+    have ht : isTrail c = false := by simp [isTrail]; omega
+    exact char32At_single P R c hl ht
+
+/-! ### rule tables -/
+
+theorem find?_congr' {α : Type} {p q : α → Bool} : ∀ {l : List α}, (∀ a ∈ l, p a = q a) →
+    l.find? p = l.find? q
+  | [], _ => rfl
+  | a :: l, h => by
+    have ha := h a (by simp)
+    have ih := find?_congr' (l := l) (fun b hb => h b (by simp [hb]))
+    simp only [List.find?_cons, ha, ih]
+
+theorem bmpOnly_mem {rules : List Start} (hb : PV.Spec.Flatten.bmpOnly rules = true)
+    {st : Start} (hst : st ∈ rules) :
+    Ok st.c ∧ ∀ r ∈ st.longer, ∀ u ∈ r.fromSuffix, Ok u := by
+  unfold PV.Spec.Flatten.bmpOnly at hb
+  simp only [List.all_eq_true, Bool.and_eq_true, Bool.or_eq_true, decide_eq_true_eq] at hb
+  obtain ⟨h1, h2⟩ := hb st hst
+  refine ⟨h1, ?_⟩
+  intro r hr u hu
+  exact (h2 r hr).1 u hu
+
+/-! ### unit-level matching = code-point-level matching -/
+
+theorem take_flatMap_eq_iff : ∀ (suf rest : List Nat), (∀ u ∈ suf, Ok u) → (∀ c ∈ rest, Scalar c) →
+    ((rest.flatMap encode16).take suf.length = suf ↔ rest.take suf.length = suf)
+  | [], _, _, _ => by simp
+  | s :: t, [], _, _ => by simp
+  | s :: t, c :: rest, hsuf, hrest => by
+    have hs : Ok s := hsuf s (by simp)
+    have hc : Scalar c := hrest c (by simp)
+    have ih := take_flatMap_eq_iff t rest (fun u hu => hsuf u (by simp [hu]))
+      (fun d hd => hrest d (by simp [hd]))
+    unfold Ok at hs; unfold Scalar at hc
+    rw [List.flatMap_cons]
+    by_cases h : c ≥ 0x10000
+    · have : encode16 c = [0xD800 + (c - 0x10000) / 0x400, 0xDC00 + (c - 0x10000) % 0x400] := by
+        unfold encode16; rw [if_pos h]
+      rw [this]
+      simp only [List.length_cons, List.cons_append, List.take_succ_cons, List.cons.injEq]
+      constructor
+      · rintro ⟨h1, _⟩; omega
+      · rintro ⟨h1, _⟩; omega
+    · have : encode16 c = [c] := by unfold encode16; rw [if_neg h]
+      rw [this]
+      simp only [List.length_cons, List.cons_append, List.nil_append, List.take_succ_cons,
+        List.cons.injEq]
+      rw [ih]
+
+theorem ruleMatches_eq (isSpace : Nat → Bool) (P rest : List Nat) (c : Nat) (r : LongReplace)
+    (hr : ∀ u ∈ r.fromSuffix, Ok u) (hs : ∀ c ∈ rest, Scalar c) :
+    ruleMatches isSpace (P ++ (c :: rest.flatMap encode16)) P.length r =
+      PV.Spec.Flatten.matchesCp isSpace rest r := by
+  unfold ruleMatches PV.Spec.Flatten.matchesCp
+  have hdrop : (P ++ (c :: rest.flatMap encode16)).drop (P.length + 1) = rest.flatMap encode16 := by
+    simp
+  simp only [hdrop]
+  have hiff := take_flatMap_eq_iff r.fromSuffix rest hr hs
+  by_cases hm : rest.take r.fromSuffix.length = r.fromSuffix
+  · have hm' := hiff.mpr hm
+    have hle : r.fromSuffix.length ≤ rest.length := by
+      have := congrArg List.length hm
+      simp only [List.length_take] at this
+      omega
+    have hsplit : rest.flatMap encode16 =
+        r.fromSuffix ++ (rest.drop r.fromSuffix.length).flatMap encode16 := by
+      conv => lhs; rw [← List.take_append_drop r.fromSuffix.length rest]
+      rw [List.flatMap_append, hm, flatMap_ok _ hr]
+    rw [hm, hm']
+    simp only [beq_self_eq_true, Bool.true_and]
+    cases hd : rest.drop r.fromSuffix.length with
+    | nil =>
+      have hlen : rest.length = r.fromSuffix.length := by
+        have := congrArg List.length hd
+        simp only [List.length_drop, List.length_nil] at this
+        omega
+      have hl2 : (P ++ (c :: rest.flatMap encode16)).length = P.length + 1 + r.fromSuffix.length := by
+        rw [hsplit, hd]; simp; omega
+      rw [beq_iff_eq.mpr hl2, beq_iff_eq.mpr hlen]
+      simp only [Bool.or_true, Bool.true_or]
+    | cons d ds =>
+      have hlen : rest.length ≠ r.fromSuffix.length := by
+        have := congrArg List.length hd
+        simp only [List.length_drop, List.length_cons] at this
+        omega
+      have hd' : Scalar d := hs d (List.mem_of_mem_drop (hd ▸ List.mem_cons_self))
+      have hinp : P ++ (c :: rest.flatMap encode16) =
+          (P ++ c :: r.fromSuffix) ++ (encode16 d ++ ds.flatMap encode16) := by
+        rw [hsplit, hd, List.flatMap_cons]; simp
+      have hl2 : (P ++ (c :: rest.flatMap encode16)).length ≠ P.length + 1 + r.fromSuffix.length := by
+        rw [hinp]
+        have := encode16_length_pos d
+        simp only [List.length_append, List.length_cons]
+        omega
+      have hE : P.length + 1 + r.fromSuffix.length = (P ++ c :: r.fromSuffix).length := by
+        simp; omega
+      have hch : char32At (P ++ (c :: rest.flatMap encode16)) (P.length + 1 + r.fromSuffix.length) = d := by
+        rw [hinp, hE]; exact char32At_boundary _ _ d hd'
+      rw [hch, beq_eq_false_iff_ne.mpr hl2, beq_eq_false_iff_ne.mpr hlen]
+      rfl
+  · have hm' : ¬ (rest.flatMap encode16).take r.fromSuffix.length = r.fromSuffix :=
+      fun h => hm (hiff.mp h)
+    rw [beq_eq_false_iff_ne.mpr hm, beq_eq_false_iff_ne.mpr hm', Bool.false_and, Bool.false_and]
+
+/-! ### the loop invariant -/
+
+theorem applyLoop_eq (rules : List Start) (hb : PV.Spec.Flatten.bmpOnly rules = true)
+    (isSpace : Nat → Bool) :
+    ∀ (fuel' fuel : Nat) (P rest out : List Nat), (∀ c ∈ rest, Scalar c) →
+      (rest.flatMap encode16).length ≤ fuel → rest.length ≤ fuel' →
+      applyLoop rules isSpace (P ++ rest.flatMap encode16) fuel P.length out =
+        out ++ PV.Spec.Flatten.flattenSpec rules isSpace fuel' rest := by
+  intro fuel'
+  induction fuel' with
+  | zero =>
+    intro fuel P rest out _ _ hl
+    have : rest = [] := List.eq_nil_of_length_eq_zero (by omega)
+    subst this
+    cases fuel <;> simp [applyLoop, PV.Spec.Flatten.flattenSpec]
+  | succ fuel' ih =>
+    intro fuel P rest out hs hf hl
+    cases rest with
+    | nil => cases fuel <;> simp [applyLoop, PV.Spec.Flatten.flattenSpec]
+    | cons c rest =>
+      have hc : Scalar c := hs c (by simp)
+      have hs' : ∀ d ∈ rest, Scalar d := fun d hd => hs d (by simp [hd])
+      have hpos := encode16_length_pos c
+      rw [List.flatMap_cons, List.length_append] at hf
+      cases fuel with
+      | zero => omega
+      | succ fuel =>
+        have hi : ¬ P.length ≥ (P ++ (c :: rest).flatMap encode16).length := by
+          rw [List.flatMap_cons]; simp only [List.length_append]; omega
+        have hch : char32At (P ++ (c :: rest).flatMap encode16) P.length = c := by
+          rw [List.flatMap_cons]; exact char32At_boundary _ _ c hc
+        unfold applyLoop PV.Spec.Flatten.flattenSpec
+        rw [if_neg hi]
+        simp only [hch]
+        cases hfind : rules.find? (fun x => x.c == c) with
+        | none =>
+          simp only []
+          have hP : P.length + u16Length c = (P ++ encode16 c).length := by
+            rw [List.length_append, encode16_length]
+          have hinp : P ++ (c :: rest).flatMap encode16 = (P ++ encode16 c) ++ rest.flatMap encode16 := by
+            rw [List.flatMap_cons, List.append_assoc]
+          rw [hP, hinp, ih fuel (P ++ encode16 c) rest (out ++ encode16 c) hs' (by omega) (by simpa using hl)]
+          rw [enc_eq, List.append_assoc]
+        | some st =>
+          simp only []
+          have hmem := List.mem_of_find?_eq_some hfind
+          have hceq : st.c = c := by simpa using List.find?_some hfind
+          obtain ⟨hok, hlong⟩ := bmpOnly_mem hb hmem
+          rw [hceq] at hok
+          have henc : encode16 c = [c] := encode16_ok hok
+          have hinp0 : P ++ (c :: rest).flatMap encode16 = P ++ (c :: rest.flatMap encode16) := by
+            rw [List.flatMap_cons, henc]; rfl
+          rw [henc] at hf
+          have hcongr : st.longer.find? (ruleMatches isSpace (P ++ (c :: rest).flatMap encode16) P.length) =
+              st.longer.find? (PV.Spec.Flatten.matchesCp isSpace rest) := by
+            apply find?_congr'
+            intro r hr
+            rw [hinp0]
+            exact ruleMatches_eq isSpace P rest c r (hlong r hr) hs'
+          rw [hcongr]
+          cases hfr : st.longer.find? (PV.Spec.Flatten.matchesCp isSpace rest) with
+          | none =>
+            simp only []
+            have hP : P.length + 1 = (P ++ [c]).length := by simp
+            have hinp : P ++ (c :: rest).flatMap encode16 = (P ++ [c]) ++ rest.flatMap encode16 := by
+              rw [hinp0]; simp
+            rw [hP, hinp, ih fuel (P ++ [c]) rest (out ++ st.character) hs'
+              (by simp only [List.length_cons, List.length_nil] at hf; omega) (by simpa using hl)]
+            rw [List.append_assoc]
+          | some r =>
+            simp only []
+            have hrm := List.mem_of_find?_eq_some hfr
+            have hmt : PV.Spec.Flatten.matchesCp isSpace rest r = true := List.find?_some hfr
+            have hrok := hlong r hrm
+            unfold PV.Spec.Flatten.matchesCp at hmt
+            simp only [Bool.and_eq_true, beq_iff_eq] at hmt
+            have htake := hmt.1
+            have hsplit : rest.flatMap encode16 =
+                r.fromSuffix ++ (rest.drop r.fromSuffix.length).flatMap encode16 := by
+              conv => lhs; rw [← List.take_append_drop r.fromSuffix.length rest]
+              rw [List.flatMap_append, htake, flatMap_ok _ hrok]
+            have hP : P.length + r.fromSuffix.length + 1 = (P ++ c :: r.fromSuffix).length := by
+              simp only [List.length_append, List.length_cons]; omega
+            have hinp : P ++ (c :: rest).flatMap encode16 =
+                (P ++ c :: r.fromSuffix) ++ (rest.drop r.fromSuffix.length).flatMap encode16 := by
+              rw [hinp0, hsplit]; simp
+            have hfl : ((rest.drop r.fromSuffix.length).flatMap encode16).length ≤ fuel := by
+              have := congrArg List.length hsplit
+              simp only [List.length_append] at this
+              simp only [List.length_cons, List.length_nil] at hf
+              omega
+            rw [hP, hinp, ih fuel (P ++ c :: r.fromSuffix) (rest.drop r.fromSuffix.length) (out ++ r.to)
+              (fun d hd => hs' d (List.mem_of_mem_drop hd)) hfl
+              (by simp only [List.length_drop, List.length_cons] at *; omega)]
+            rw [List.append_assoc]
+
+theorem flattenSpec_no_rule (rules : List Start) (isSpace : Nat → Bool) :
+    ∀ (fuel : Nat) (cps : List Nat), cps.length ≤ fuel → (∀ c ∈ cps, ∀ st ∈ rules, st.c ≠ c) →
+      PV.Spec.Flatten.flattenSpec rules isSpace fuel cps = cps.flatMap encode16
+  | 0, cps, hl, _ => by
+    have : cps = [] := List.eq_nil_of_length_eq_zero (by omega)
+    subst this; simp [PV.Spec.Flatten.flattenSpec]
+  | fuel + 1, [], _, _ => by simp [PV.Spec.Flatten.flattenSpec]
+  | fuel + 1, c :: rest, hl, hn => by
+    have hnone : rules.find? (fun x => x.c == c) = none := by
+      rw [List.find?_eq_none]
+      intro st hst
+      simpa using hn c (by simp) st hst
+    unfold PV.Spec.Flatten.flattenSpec
+    rw [hnone]
+    simp only []
+    rw [flattenSpec_no_rule rules isSpace fuel rest (by simpa using hl)
+      (fun d hd => hn d (by simp [hd])), enc_eq, List.flatMap_cons]
+
 end PV.Lemmas.Flatten
